@@ -4,5 +4,5 @@ export GOFLAGS=-mod=mod GOPROXY=off GOSUMDB=off GOTOOLCHAIN=local
 export VERIF_DIR=$PWD VERIF_WORKERS=${VERIF_WORKERS:-10}
 mkdir -p bin && (cd cmd/verifctl && go build -o ../../bin/verifctl .) && (cd tools/simify && go build -o ../../bin/simify .) || exit 2
 for id in "$@"; do
-  echo "=== $id seed=$VERIF_SEED"; ./bin/verifctl check $id --tier thorough 2>&1 | grep -v "^goroutine\|^\s\|^$\|created by" | grep -v "^github.com\|^testing\|^internal\|^runtime" | tail -25
+  echo "=== $id seed=$VERIF_SEED"; ./bin/verifctl check $id --tier thorough ${VERIF_RUNS:+--runs $VERIF_RUNS} 2>&1 | grep -v "^goroutine\|^\s\|^$\|created by" | grep -v "^github.com\|^testing\|^internal\|^runtime" | tail -25
 done
